@@ -34,6 +34,9 @@ type c08States struct {
 	trans  map[string]bool
 	traces int64
 	execs  int64
+	// streamTrans counts the (state, program) pairs of the reused-parser
+	// streaming part: distinct by construction (one history per state)
+	streamTrans int64
 }
 
 func (s *c08States) add(state string, ops []string) {
@@ -52,14 +55,16 @@ func c08(c *vc.Ctx) {
 	pr := c08NewParserReuse()
 	pt := c08NewPrinterReuse()
 	st := &c08States{states: map[string]bool{}, trans: map[string]bool{}}
-	c.Rule = fmt.Sprintf("(1,2) programs: the syntax checks' shared space (test-table corpus + grammar depth %d default layout + the single-gap layout deviations of depth<=%d templates that add a line), newline-terminated (corpus and depth<=1 programs also as they are); every depth<=1 template with all statement gaps on separate lines (3 newline styles); every sequence of 2 (thorough 3) of %d multi-line building blocks (quotes, here-docs, continuations, compound commands, substitutions), terminated and unterminated; x up to 5 variants. Per parseable (program, variant): StmtsSeq statements, dumped with positions+comments when handed over, = Parse's; InteractiveSeq over a reader returning one line per Read: no error, statements of the callbacks with Incomplete()=false concatenate to Parse's statements, statements of Incomplete callbacks are the next Parse statements, Incomplete() at each callback = reference (fresh parse of the consumed lines is IsIncomplete, or they end in a line continuation directly after an unterminated statement; a continuation with no open statement accepts either answer), and leaving the loop at any callback does not panic. (3) explicit-state search on the real objects. Parser: %d residue-leaving history operations, %d option sets; %s; after each history each of %d operations (the history operations and %d probes) must give the result (tree dump with positions, error text, callback trace with Incomplete flags) of a fresh Parser with the same options; each operation alone on a fresh Parser must not panic. Printer: %d history operations (nodes of all printable kinds, unsupported nodes, failing writers, option toggles), %d configurations; %s; then each of %d operations (%d probe nodes) vs a fresh Printer. state = reflection dump of the object's private fields after the history (byte-buffer contents and referenced trees excluded); no pruning on states; distinct = distinct states + multi-line programs",
-		vc.Pick(c, 1, 2), vc.Pick(c, 0, 1), len(c08Statements), len(pr.hist), len(pr.opts), pr.bounds(depth), len(pr.ops), len(pr.ops)-len(pr.hist), len(pt.hist), len(pt.cfgs), pt.bounds(depth), len(pt.ops), len(pt.probes))
+	c.Rule = fmt.Sprintf("(1,2) programs: the syntax checks' shared space (test-table corpus + grammar depth %d default layout + the single-gap layout deviations of depth<=%d templates that add a line), newline-terminated (corpus and depth<=1 programs also as they are); every depth<=1 template with all statement gaps on separate lines (5 newline styles: newline, blank line, comment, whitespace-only line, comment ending in a backslash); every sequence of 2 (thorough 3) of %d building blocks (words, comments incl. ones ending in a backslash, empty and whitespace-only lines, multi-line quotes, here-docs, continuations, compound commands, substitutions, and a line ending in a backslash inside each of those), terminated and unterminated; x up to 5 variants x %d parser option sets (KeepComments, default options). Per parseable (program, variant, options): StmtsSeq statements, dumped with positions+comments when handed over, = Parse's (same options); InteractiveSeq over a reader returning one line per Read: no error, statements of the callbacks with Incomplete()=false concatenate to Parse's statements, statements of Incomplete callbacks are the next Parse statements, Incomplete() at each callback = reference (fresh comment-keeping parse of the consumed lines is IsIncomplete, or they end in a line continuation directly after an unterminated statement; a continuation with no open statement accepts either answer), and leaving the loop at any callback does not panic. (3) explicit-state search on the real objects. Parser: %d residue-leaving history operations, %d option sets; %s; after each history each of %d operations (the history operations and %d probes) must give the result (tree dump with positions, error text, callback trace with Incomplete flags) of a fresh Parser with the same options; each operation alone on a fresh Parser must not panic. (3b) for every distinct (option set, Parser state) reached by those histories, the first history reaching it is replayed before each of the %d two-block programs of (2), which is then fed line by line through InteractiveSeq on the reused parser: the callback trace (lines consumed, Incomplete(), statement dumps, EOF, error) must equal a fresh parser's. Printer: %d history operations (nodes of all printable kinds, unsupported nodes, failing writers, option toggles), %d configurations; %s; then each of %d operations (%d probe nodes) vs a fresh Printer. state = reflection dump of the object's private fields after the history (byte-buffer contents and referenced trees excluded); no pruning on states except in (3b); distinct = distinct states + multi-line (program, variant, options)",
+		vc.Pick(c, 1, 2), vc.Pick(c, 0, 1), len(c08Statements), len(c08StreamOpts), len(pr.hist), len(pr.opts), pr.bounds(depth), len(pr.ops), len(pr.ops)-len(pr.hist), len(c08Statements)*len(c08Statements), len(pt.hist), len(pt.cfgs), pt.bounds(depth), len(pt.ops), len(pt.probes))
 	c.Assumptions = []string{
 		"a reader that returns exactly one line per Read is, for the parser, indistinguishable from a blocking pipe fed line by line",
 		"the state key omits byte-buffer contents and the previous call's trees; histories are NOT pruned on the key (every sequence up to the bound is executed), so the omission cannot hide a divergence within the bound",
-		"histories are drawn from a fixed alphabet of residue-leaving operations, not from all inputs",
+		"histories are drawn from a fixed alphabet of residue-leaving operations, not from all inputs; the operations run after EVERY history are a fixed list too",
+		"(3b) runs the space of next inputs once per distinct (option set, state key), on the first history in enumeration order that reaches the state: two histories that leave the same key are assumed to treat the next input alike as far as the excluded byte-buffer contents go (the buffer lengths and nil-ness are part of the key)",
+		"parser options are a dimension of the streaming part with two values (KeepComments on, all defaults); StopAt and RecoverErrors are only explored by the reuse part",
 	}
-	parts := os.Getenv("VERIF_C08_PARTS") // development aid: "stream", "parser", "printer"
+	parts := os.Getenv("VERIF_C08_PARTS") // development aid: "stream", "parser", "printer", "relines"
 	on := func(p string) bool { return parts == "" || parts == "count" || strings.Contains(parts, p) }
 	gen := func(emit func(c08Case)) {
 		count := func(t c08Case) {
@@ -79,6 +84,9 @@ func c08(c *vc.Ctx) {
 		if on("printer") {
 			pt.gen(depth, count)
 		}
+		if on("relines") {
+			pr.genStream(c, depth, count)
+		}
 		if parts != "" {
 			c.CapNote("VERIF_C08_PARTS=%s: only some parts were run", parts)
 		}
@@ -91,14 +99,16 @@ func c08(c *vc.Ctx) {
 			return pr.run(c, st, t)
 		case "parserop":
 			return pr.runOp(c, t)
+		case "parserstream":
+			return pr.runStream(c, st, t)
 		case "printer":
 			return pt.run(c, st, t)
 		}
 		return vc.Failf("bad case", "unknown part %q", t.Part)
 	})
 	c.Extra["states"] = len(st.states)
-	c.Extra["transitions"] = len(st.trans)
-	c.Extra["traces_validated_against_impl"] = st.traces
+	c.Extra["transitions"] = int64(len(st.trans)) + st.streamTrans
+	c.Extra["traces_validated_against_impl"] = st.traces + st.streamTrans
 	c.Extra["operations_executed_on_impl"] = st.execs
 	c.Finish(complete)
 }
